@@ -959,6 +959,9 @@ impl<'p, W, R, T> CompilationScope<'p, W, R, T> {
                             )?)
                             .ok_or(CompilationError::CallableBindingFailed)?;
                     }
+                    if !bind.is_trivial_except(func.generic_params.as_deref().unwrap_or(&[])) {
+                        return Err(CompilationError::CallableBindingFailed);
+                    }
                     return Ok(func.rtype(&bind));
                 }
                 Err(CompilationError::NotAFunction { type_: func_type })
